@@ -60,7 +60,9 @@ for f in sorted(glob.glob(os.path.join(VERIF, "evidence", "C*.json"))):
         nat_lines.append("  * %s (%d): %s" % (os.path.basename(f)[:-5], len(names), ", ".join("`%s`" % n for n in sorted(names))))
     else:
         nat_lines.append("  * %s: none" % os.path.basename(f)[:-5])
-out.append(tail.replace("{{SEEDED_RESULTS}}", table).replace("{{NATIVE_AXIOMS}}", "\n".join(nat_lines)))
+hp = os.path.join(VERIF, "harmless", "RESULTS.md")
+htable = "\n".join(l for l in open(hp).read().split("\n") if l.startswith("|")) if os.path.exists(hp) else "(not run yet)"
+out.append(tail.replace("{{SEEDED_RESULTS}}", table).replace("{{NATIVE_AXIOMS}}", "\n".join(nat_lines)).replace("{{HARMLESS_RESULTS}}", htable))
 out.append(open(os.path.join(VERIF, "design/90_appendixA.md")).read())
 open(os.path.join(VERIF, "DESIGN.md"), "w").write("\n".join(out))
 print("DESIGN.md written")
